@@ -3,7 +3,7 @@
    as a Section hypothesis (the shape of c14's object_rt: the text of an object followed by anything
    parses to the object). *)
 From LV Require Import Base.Bytes Base.Sx Model.Obj Model.Writer Model.Parser Model.Utf Model.ObjStm
-  Spec.XrefSpec Proofs.LexProofs.
+  Spec.XrefSpec Proofs.LexProofs Gen.ObjStmC.
 Local Open Scope N_scope.
 
 Definition cp (l : bytes) : list N := map N_of_byte l.
@@ -100,11 +100,26 @@ Section Expand.
 
   (* the object round trip, for the continuation each object really has in the payload: the texts of the
      objects after it (an integer must not be continued into "n g R", so "any continuation" would be false) *)
+  (* ... and the parser stops at or before the text of the next object: an object does not reach into its successor
+     (7.5.7: the objects lie one after the other).  That is what the overlap limit of ObjectStream::new needs. *)
+  Definition item_rt (it : ositem) (after : bytes) : Prop :=
+    exists r, direct_object (fuel_for (oi_text it ++ after)) (oi_text it ++ after) = POk (denote it) r /\
+              (length after <= length r)%nat.
   Fixpoint items_rt (items : list ositem) : Prop :=
     match items with
     | [] => True
-    | it :: l => parse_direct_object (oi_text it ++ flat_map oi_text l) = Some (denote it) /\ items_rt l
+    | it :: l => item_rt it (flat_map oi_text l) /\ items_rt l
     end.
+
+  Lemma item_rt_parse it after : item_rt it after -> parse_direct_object (oi_text it ++ after) = Some (denote it).
+  Proof. intros [r [E _]]. unfold parse_direct_object. rewrite E. reflexivity. Qed.
+
+  Lemma item_rt_len it after : item_rt it after ->
+    exists n, parse_direct_object_len (oi_text it ++ after) = Some (denote it, n) /\ n <= N.of_nat (length (oi_text it)).
+  Proof.
+    intros [r [E Hl]]. unfold parse_direct_object_len. rewrite E. eexists. split; [reflexivity|].
+    rewrite app_length. lia.
+  Qed.
 
   Definition item_ok (it : ositem) : Prop :=
     oi_text it <> [] /\ oi_num it <= u32_max /\
@@ -195,12 +210,42 @@ Section Expand.
       replace (N.to_nat (N.of_nat (length hdr) + N.of_nat (length pre))) with (length (hdr ++ pre))
         by (rewrite app_length; lia).
       rewrite app_assoc, drop_skipn, skipn_app, skipn_all, Nat.sub_diag. cbn [app skipn].
-      rewrite Hrt. reflexivity. }
+      rewrite (item_rt_parse _ _ Hrt). reflexivity. }
     rewrite E.
     (* the remaining entries: pre grows by this text *)
     specialize (IH hdr (pre ++ oi_text it) (insert m (oi_num it, 0) (denote it)) Hrest Hrts).
     rewrite app_length, Nat2N.inj_add in IH. rewrite <- app_assoc in IH. exact IH.
   Qed.
+
+  (* what the members are charged: at most the length of their texts *)
+  Lemma spent_fold : forall items hdr pre a,
+    Forall item_ok items -> items_rt items ->
+    fold_left (fun a p => a + objstm_charge (hdr ++ pre ++ flat_map oi_text items) (N.of_nat (length hdr)) p)
+              (map (fun io => (Some (oi_num (fst io)), Some (snd io)))
+                   (combine items (os_offsets (N.of_nat (length pre)) items))) a
+    <= a + N.of_nat (length (flat_map oi_text items)).
+  Proof.
+    induction items as [|it items IH]; intros hdr pre a Hok Hrts; [cbn; lia|].
+    inversion Hok as [|x l [Hne _] Hrest]; subst x l. cbn [items_rt] in Hrts. destruct Hrts as [Hrt Hrts].
+    cbn [os_offsets combine map fold_left flat_map fst snd].
+    destruct (item_rt_len _ _ Hrt) as [n [En Hn]].
+    assert (E : objstm_charge (hdr ++ pre ++ oi_text it ++ flat_map oi_text items) (N.of_nat (length hdr))
+                              (Some (oi_num it), Some (N.of_nat (length pre))) = n).
+    { unfold objstm_charge. rewrite !app_length.
+      assert (Hlt : (1 <= length (oi_text it))%nat) by (destruct (oi_text it); [contradiction | cbn; lia]).
+      replace (N.of_nat (length hdr + (length pre + (length (oi_text it) + length (flat_map oi_text items)))) <=?
+               N.of_nat (length hdr) + N.of_nat (length pre)) with false by (symmetry; apply N.leb_gt; lia).
+      replace (N.to_nat (N.of_nat (length hdr) + N.of_nat (length pre))) with (length (hdr ++ pre))
+        by (rewrite app_length; lia).
+      rewrite app_assoc, drop_skipn, skipn_app, skipn_all, Nat.sub_diag. cbn [app skipn].
+      rewrite En. reflexivity. }
+    rewrite E.
+    specialize (IH hdr (pre ++ oi_text it) (a + n) Hrest Hrts).
+    rewrite app_length, Nat2N.inj_add in IH. rewrite <- app_assoc in IH.
+    rewrite app_length. lia.
+  Qed.
+
+  Lemma overlap_limit_pos : 1 <= MAX_MEMBER_OVERLAP. Proof. vm_compute. discriminate. Qed.
 
   Lemma ascii_header : forall items pos, Forall item_ok items -> forallb sep_byte hdr_end = true ->
     forallb (fun b => N_of_byte b <? 128) (header_of items pos ++ hdr_end) = true.
@@ -252,6 +297,10 @@ Section Expand.
       rewrite app_length in Hp. constructor; [lia|]. apply IHi. lia. }
     rewrite header_tokens; [| assumption | assumption | apply Ho; lia | assumption].
     rewrite numbers_of_tokens; [| assumption | apply Ho; lia].
+    pose proof (spent_fold items hdr [] 0 Hok Hrts) as Hs. cbn [length app] in Hs. change (N.of_nat 0) with 0 in Hs.
+    unfold objstm_spent, objstm_limit.
+    replace (_ <? _) with false.
+    2:{ symmetry. apply N.ltb_ge. etransitivity; [exact Hs|]. rewrite app_length. pose proof overlap_limit_pos. nia. }
     pose proof (entries_fold items hdr [] [] Hok Hrts) as Hf. cbn [length app] in Hf. change (N.of_nat 0) with 0 in Hf.
     rewrite Hf. reflexivity.
   Qed.
